@@ -6,7 +6,7 @@ for l in open('/verif/properties.jsonl'):
 a=d['anchors']
 print(f"""You are helping to evaluate a verification effort for the open-source Python library pySDC (spectral deferred correction time integrators). Your job: craft realistic *seeded defects* (mutations) of pySDC that break one stated semantic property while the code still imports and the existing test-suite still passes.
 
-Work ONLY in your own scratch git worktree of the repository: /tmp/wt/{pid}  (a detached checkout; interpreter: /venv/bin/python; run things with `cd /tmp/wt/{pid} && PYTHONPATH=/tmp/wt/{pid} /venv/bin/python ...` so that YOUR copy of pySDC is imported -- verify with `python -c "import pySDC; print(pySDC.__file__)"`). Do NOT read, list or touch /verif or /repo, and do not look under /root. There is no network.
+Work ONLY in your own scratch git worktree of the repository: /tmp/wt/{pid}  (a detached checkout; interpreter: /venv/bin/python; run things with `cd /tmp/wt/{pid} && PYTHONPATH=/tmp/wt/{pid} /venv/bin/python ...` so that YOUR copy of pySDC is imported -- verify with `python -c "import pySDC; print(pySDC.__file__)"`). Do NOT read, list or touch /verif or /repo, and do not look under /root. There is no network. The machine is shared: export OMP_NUM_THREADS=1 OPENBLAS_NUM_THREADS=1 and never use more than 4 pytest workers (-n 4).
 
 THE PROPERTY ({pid}: {d['title']})
 Statement: {d['statement']}
@@ -15,7 +15,7 @@ Why the existing tests cannot settle it: {d['why_tests_cant']}
 Code it is anchored in: files {a['files']}; mechanisms: {[m['name']+' @ '+m['where'] for m in a['mechanism']]}; observable at: {a['observe_at']}
 
 WHAT TO PRODUCE: TWO different mutations (different mechanisms / different code sites), each a small source change to pySDC (a few lines) such that
- (1) the package still imports and the existing tests still pass (at minimum run the test files that exercise the files you touched, e.g. `cd /tmp/wt/{pid} && PYTHONPATH=/tmp/wt/{pid} /venv/bin/python -m pytest -q -p no:cacheprovider -x -n 8 pySDC/tests/<relevant files>`; the tests live in pySDC/tests and pySDC/projects/*/tests; choose generously which are relevant; tests requiring mpi4py/petsc/fenics/cupy are skipped/erroring already on the unchanged tree, ignore those);
+ (1) the package still imports and the existing tests still pass (at minimum run the test files that exercise the files you touched, e.g. `cd /tmp/wt/{pid} && PYTHONPATH=/tmp/wt/{pid} /venv/bin/python -m pytest -q -p no:cacheprovider -x -n 4 pySDC/tests/<relevant files>`; the tests live in pySDC/tests and pySDC/projects/*/tests; choose generously which are relevant; tests requiring mpi4py/petsc/fenics/cupy are skipped/erroring already on the unchanged tree, ignore those);
  (2) the property above is genuinely violated by the changed code;
  (3) the violation needs something SPECIFIC to manifest: an unusual input or configuration (not the defaults used in tutorials/tests), a multi-step sequence of operations, a particular interleaving/fault/crash point, or two cooperating sites that each look fine alone. Do NOT produce a change that ordinary use or the default configuration exposes at once. Prefer realistic slips a maintainer could make in a refactor (off-by-one in a rarely used branch, wrong index for a non-default option, stale cache, wrong sign for a special case, condition slightly too narrow/wide).
  (4) a demonstration: a small self-contained script demo.py that exits 0 on the unchanged code and exits non-zero (assertion failure) on the mutated code, when run as `PYTHONPATH=<tree> /venv/bin/python demo.py`.
